@@ -46,6 +46,7 @@ func compile(t Term, env *Env) (clauses, error) {
 				return nil, typeError(validTypeCallable, body, env)
 			}
 			c.raw = t
+			c.alt = len(cs) > 0
 			cs = append(cs, c)
 		}
 		return cs, nil
@@ -61,6 +62,10 @@ type clause struct {
 	raw      Term
 	vars     []Variable
 	bytecode bytecode
+
+	// alt is true if the clause is another alternative of the disjunctive body of the preceding clause.
+	// Together they're one clause for clause/2 and retract/1.
+	alt bool
 }
 
 func compileClause(head Term, body Term, env *Env) (clause, error) {
